@@ -2,6 +2,7 @@ package props
 
 import (
 	"bytes"
+	"context"
 	"encoding/json"
 	"fmt"
 	"os"
@@ -9,6 +10,7 @@ import (
 	"path/filepath"
 	"sort"
 	"strings"
+	"time"
 
 	"github.com/pion/rtcp"
 
@@ -594,6 +596,10 @@ func c18Scenarios(thorough bool) []c18scenario {
 	return out
 }
 
+// c18Poisoned is set when an execution deadlocked (package-level locks of the code under test may
+// be left held, so no further schedule exploration starts from a clean state).
+var c18Poisoned bool
+
 func c18Explore(c *bx.Ctx, sc c18scenario, bound, maxExec int) (sched.Stats, bool) {
 	// sequential baseline on fresh state, each thread alone
 	ths, fin := sc.mk()
@@ -607,7 +613,8 @@ func c18Explore(c *bx.Ctx, sc c18scenario, bound, maxExec int) (sched.Stats, boo
 	var curFinal func() string
 	violated := false
 	preempted := 0
-	x := &sched.Explorer{Bound: bound, MaxExec: maxExec, SetHook: setHook,
+	var x *sched.Explorer
+	x = &sched.Explorer{Bound: bound, MaxExec: maxExec, SetHook: setHook,
 		Bodies: func() []func() {
 			ths, fin := sc.mk()
 			curFinal = fin
@@ -633,11 +640,21 @@ func c18Explore(c *bx.Ctx, sc c18scenario, bound, maxExec int) (sched.Stats, boo
 			if violated {
 				return
 			}
+			defer func() {
+				if violated {
+					x.Abort = true // the first counterexample has the fewest deviations; stop this scenario
+				}
+			}()
 			rp := func(exp, obs string) bx.Replay {
 				return bx.Replay{Entry: "schedule", Value: sc.name, Ops: compressSchedule(schedule), Expected: exp, Observed: obs}
 			}
 			if len(pans) > 0 {
 				violated = true
+				if _, dl := pans[0].(sched.DeadlockPanic); dl {
+					c18Poisoned = true // locks may still be held: later executions would not start from a clean state
+					c.Report(keyJoin("C18/schedule", sc.driver, "deadlock"), "concurrent operations deadlock under an interleaving ("+sc.name+")", rp("both operations return", "every live thread is waiting"))
+					return
+				}
 				c.Report(keyJoin("C18/schedule", sc.driver, "panic"), fmt.Sprintf("an operation panics under an interleaving (%s): %v", sc.name, pans[0]), rp("results of the sequential run", fmt.Sprint(pans[0])))
 				return
 			}
@@ -721,6 +738,18 @@ func c18Control(c *bx.Ctx) bool {
 	return found
 }
 
+func instrSyncShimmed() bool {
+	b, err := os.ReadFile(os.Getenv("VERIF_INFO"))
+	if err != nil {
+		return false
+	}
+	var info struct {
+		S bool `json:"sync_shimmed"`
+	}
+	_ = json.Unmarshal(b, &info)
+	return info.S
+}
+
 func instrInfo() (unsupported []string, points int) {
 	b, err := os.ReadFile(os.Getenv("VERIF_INFO"))
 	if err != nil {
@@ -744,9 +773,12 @@ func c18Schedules(c *bx.Ctx) {
 	c.Note(fmt.Sprintf("instrumentation: %d static scheduling points in package rtcp", pts))
 	blocking := false
 	for _, u := range unsup {
-		if strings.Contains(u, "sync") || strings.Contains(u, "go statement") || strings.Contains(u, "channel") || strings.Contains(u, "select") {
+		if strings.Contains(u, "go statement") || strings.Contains(u, "channel") || strings.Contains(u, "select") {
 			blocking = true
 		}
+	}
+	if instrSyncShimmed() {
+		c.Note("package rtcp uses package sync: in the instrumented build it is routed through a cooperative shim (Mutex, RWMutex, Once, Pool, WaitGroup), so lock waits are scheduling points and deadlocks are detected")
 	}
 	if blocking {
 		c.ForceExpired("package rtcp uses " + strings.Join(unsup, ", ") + ": blocking primitives are not intercepted by the cooperative scheduler; schedule layer skipped (history and race-detector layers still run)")
@@ -764,6 +796,10 @@ func c18Schedules(c *bx.Ctx) {
 			continue
 		}
 		if c.Expired() {
+			return
+		}
+		if c18Poisoned {
+			c.ForceExpired("a deadlock was found; locks of the code under test may still be held, the remaining scenarios of this worker were not explored")
 			return
 		}
 		// size the bound by the length of the default execution
@@ -845,10 +881,17 @@ func c18RacePass(c *bx.Ctx) {
 		c.Note("race-enabled build unavailable: free-running race-detector pass not run")
 		return
 	}
-	cmd := exec.Command(bin, "-racepass")
+	ctx, cancel := context.WithTimeout(context.Background(), 180*time.Second)
+	defer cancel()
+	cmd := exec.CommandContext(ctx, bin, "-racepass")
 	cmd.Env = append(os.Environ(), "GOMAXPROCS=8", "GORACE=halt_on_error=0 exitcode=66")
 	out, err := cmd.CombinedOutput()
 	c.T(1)
+	if ctx.Err() != nil {
+		// supporting layer only: a hang under free-running goroutines (deadlocks are decided by the schedule layer)
+		c.ForceExpired("the free-running race-detector pass did not finish within 180 s and was stopped")
+		return
+	}
 	if strings.Contains(string(out), "DATA RACE") {
 		s := string(out)
 		if len(s) > 3000 {
